@@ -23,13 +23,24 @@ type TokSpec struct {
 	Blocks   []m.Block `json:"blocks"`
 	Sealed   bool      `json:"sealed,omitempty"`
 	KeyID    *uint32   `json:"key_id,omitempty"`
+	Base     []string  `json:"base,omitempty"` // custom base symbol table (biscuit.WithSymbols); empty = default
+}
+
+// reload passes a token through Serialize and the matching Unmarshaler.
+func (s TokSpec) reload(tok *biscuit.Biscuit) (*biscuit.Biscuit, []byte, error) {
+	ser, err := tok.Serialize()
+	if err != nil {
+		return nil, nil, err
+	}
+	re, err := bridge.UnmarshalBase(ser, s.Base)
+	return re, ser, err
 }
 
 // build runs build / append* / seal? and returns every intermediate token.
 func (s TokSpec) build() (final *biscuit.Biscuit, stages []*biscuit.Biscuit, pub ed25519.PublicKey, err error) {
 	pub, priv := bridge.RootKey(s.RootSeed)
 	rng := bridge.NewDetRand(s.RngKey)
-	tok, err := bridge.BuildAuthority(priv, rng, s.Blocks[0], s.KeyID)
+	tok, err := bridge.BuildAuthorityBase(priv, rng, s.Blocks[0], s.KeyID, s.Base)
 	if err != nil {
 		return nil, nil, pub, fmt.Errorf("build authority: %w", err)
 	}
@@ -178,12 +189,14 @@ func forkAndRecheck(stages []*biscuit.Biscuit, pub ed25519.PublicKey, rngKey uin
 			return fmt.Sprintf("stage %d serializes differently after two tokens were derived from stage %d", i, k%len(stages))
 		}
 	}
-	for name, ser := range map[string][]byte{"first": c1ser, "second": c2ser} {
+	names := []string{"first", "second"}
+	for i, ser := range [][]byte{c1ser, c2ser} {
 		if ok, _, _, detail, pan := libAccepts(ser, pub); pan != nil || !ok {
-			return fmt.Sprintf("%s sibling appended to stage %d is not accepted under its root: %s %v", name, k%len(stages), detail, pan)
+			return fmt.Sprintf("%s sibling appended to stage %d is not accepted under its root: %s %v", names[i], k%len(stages), detail, pan)
 		}
 	}
-	for name, tk := range map[string]*biscuit.Biscuit{"first": c1, "second": c2} {
+	for i, tk := range []*biscuit.Biscuit{c1, c2} {
+		name := names[i]
 		ser, _ := tk.Serialize()
 		if r := ref.VerifyChain(ser, pub); !r.OK {
 			return fmt.Sprintf("%s sibling appended to stage %d does not verify per the reference: %s", name, k%len(stages), r.Reason)
